@@ -30,6 +30,11 @@ var verifDir = envOr("VERIF_DIR", "/verif")
 // that must not be disturbed by edits to /repo (the registered commands never set it).
 var repoDir = "/repo"
 
+// outDir receives evidence and replay files: this copy of /verif, except when the library
+// under test is not /repo (seed and mutant experiments), whose results must never be mistaken
+// for evidence about /repo.
+var outDir = verifDir
+
 // modFlags: when the library comes from somewhere else than /repo, builds use a copy of the
 // harness go.mod whose replace directive points there.
 var modFlags = "-mod=mod"
@@ -37,6 +42,7 @@ var modFlags = "-mod=mod"
 func setupRepoDir() {
 	if v := os.Getenv("VERIF_REPO"); v != "" && v != "/repo" {
 		repoDir = v
+		outDir = envOr("VERIF_OUT", filepath.Join(os.TempDir(), "verif-alt-out"))
 		b, err := os.ReadFile(filepath.Join(harnessDir, "go.mod"))
 		if err != nil {
 			fatal2("%v", err)
@@ -105,11 +111,20 @@ func main() {
 	}
 	setupRepoDir()
 	rc := &runCfg{prop: prop, tier: *tier, seed: seed, workers: *workers, only: -1, replay: *replay, verbose: *verbose}
+	cleanup := func() {
+		if scratch != os.Getenv("VERIF_SCRATCH") {
+			os.RemoveAll(scratch)
+		}
+	}
 	if prop == "setup" {
-		os.Exit(doSetup(rc))
+		code := doSetup(rc)
+		cleanup()
+		os.Exit(code)
 	}
 	if prop == "lackey" {
-		os.Exit(lackeyCLI(fs.Args()))
+		code := lackeyCLI(fs.Args())
+		cleanup()
+		os.Exit(code)
 	}
 	plan, ok := plans[prop]
 	if !ok {
@@ -620,12 +635,12 @@ func writeEvidence(rc *runCfg, m *merged, nViol int, rule string, assumptions []
 	if err != nil {
 		return err
 	}
-	os.MkdirAll(filepath.Join(verifDir, "evidence"), 0o755)
-	return os.WriteFile(filepath.Join(verifDir, "evidence", rc.prop+".json"), b, 0o644)
+	os.MkdirAll(filepath.Join(outDir, "evidence"), 0o755)
+	return os.WriteFile(filepath.Join(outDir, "evidence", rc.prop+".json"), b, 0o644)
 }
 
 func writeReplay(rc *runCfg, n int, v taggedViolation) string {
-	dir := filepath.Join(verifDir, "replays")
+	dir := filepath.Join(outDir, "replays")
 	os.MkdirAll(dir, 0o755)
 	p := filepath.Join(dir, fmt.Sprintf("%s-%d-%d.json", rc.prop, rc.seed, n))
 	rep := map[string]any{
